@@ -16,6 +16,7 @@ INVARIANT TempStart
 INVARIANT TempFloor
 INVARIANT TempOneAfterAnnealing
 INVARIANT NoAnnealingIsOne
+INVARIANT DecrementsClosedForm
 INVARIANT AcceptedCompletes
 PROPERTY TempMonotone
 PROPERTY TempOnlyAtBoundaries
